@@ -198,3 +198,30 @@ Theorem C17_bounded_join_refuted :
   /\ thread_alive_after_stop (Some 4%nat) [6; 1]%nat = true.
 Proof. exact join_bounded_refuted. Qed.
 Print Assumptions C17_bounded_join_refuted.
+
+(* Wave 13 — HEAD's no-motion guard is `distance > 0`, with no threshold.  While flying, with a positive velocity: EVERY non-zero
+   displacement (dx, dy, dz), however small, issues exactly one go_to, to position + displacement, with duration x velocity =
+   distance, and the reported position advances by exactly the displacement; a zero displacement issues no go_to and leaves
+   the state unchanged. *)
+Theorem C17_hl_every_nonzero_displacement_issues_goto : forall sq dx dy dz v s,
+  sqrt_spec sq -> hfly s = true ->
+  (0 < dflt v (dvel s) -> ~ (dx == 0 /\ dy == 0 /\ dz == 0) ->
+   exists s' dur dist,
+     h_move sq dx dy dz v s = (s', None) /\
+     hlog s' = HGoto (hnow s) (hx s + dx) (hy s + dy) (hz s + dz) 0 dur :: hlog s /\
+     0 < dist /\ dist * dist == dx * dx + dy * dy + dz * dz /\ dur * dflt v (dvel s) == dist /\
+     hx s' = hx s + dx /\ hy s' = hy s + dy /\ hz s' = hz s + dz) /\
+  (dx == 0 -> dy == 0 -> dz == 0 -> h_move sq dx dy dz v s = (s, None)).
+Proof.
+  intros sq dx dy dz v s Hsq Hf. split.
+  - intros Hv Hnz. exact (h_move_nonzero sq dx dy dz v s Hsq Hf Hv Hnz).
+  - intros Hx Hy Hz. exact (h_move_zero sq dx dy dz v s Hsq Hf Hx Hy Hz).
+Qed.
+Print Assumptions C17_hl_every_nonzero_displacement_issues_goto.
+
+(* ... and a minimum-distance threshold breaks it: with `distance > 1 mm` a 0.8 mm step sends nothing and is not tracked *)
+Theorem C17_hl_goto_threshold_refuted :
+  exists s, hfly s = true /\
+    h_goto_thr (1 # 1000) qsqrt_exact (hx s) (hy s) (hz s + (8 # 10000)) None s = (s, None).
+Proof. exact goto_threshold_refuted. Qed.
+Print Assumptions C17_hl_goto_threshold_refuted.
